@@ -282,7 +282,7 @@ func (vt *v2T) plantCaseSep(c *v2C, planted []v2Doc, q int, sepWords int) {
 func (vt *v2T) scenC03() {
 	docs := v2Corpus()
 	scen := v2Scenarios()
-	thrs := []float64{0.01, 0.3, 0.5, 0.7, 0.8, 0.95, 1.0}
+	thrs := []float64{0.01, 0.3, 0.5, 0.7, 0.8, 0.95, 1.0, 0.805, 0.58} // the last two: a threshold is not a whole percentage; 0.58*100 < 58
 	for ti, thr := range thrs {
 		sub := docs
 		if thr < 0.5 {
